@@ -334,6 +334,13 @@ outer:
 
 	// No better solution than allocate at the end of the table.
 	base = a.size - min
+	for a.usedBase.Get(a.delta + base) {
+		// Two lines must never share a base: their entries would become indistinguishable
+		// by the check array. Skip bases that are already in use.
+		base++
+		a.taken.Grow(base + max + 1)
+		a.usedBase.Grow(a.delta + base + 1)
+	}
 	return
 }
 
